@@ -21,6 +21,15 @@ CHECKS = {
  "C04": ("exploration", "eligible-set monitor at logical quiescent points + shell-barrier pipelines on the real runner",
          "at every quiescent point of every explored execution the tasks parked in the controlled Runner must contain the model's eligible set; barrier pipelines complete only if all eligible stages overlap.",
          "quiescence is logical (two scheduler passes since the last change, via the sched.pass hook)", "DESIGN.md §4 C04"),
+ "C05": ("exploration", "exhaustive + seeded graph builds compared with Kahn's algorithm and declared edge sets; CLI `graph` output parsed",
+         "every digraph on <=3 (quick) / <=4 (thorough) stages incl. self-loops in every declaration order is built through the public API and compared with an independent cycle test; accepted graphs must expose exactly the declared edges; a YAML sample goes through the binary.",
+         "Kahn's algorithm in the checker is the oracle; dangling names are C18", "DESIGN.md §4 C05"),
+ "C06": ("exploration", "reference-interpreter comparison of ordered command traces (trace file + stdout) over the exhaustive task grammar",
+         "all 3024 shapes of the quantifier's grammar plus seeded larger tasks run on the real TaskRunner; the ordered token trace, Skipped/Errored are compared with a 30-line interpreter of the statement.",
+         "tokens are written by shell builtins into an O_APPEND file; `after` after a failing `before` is a don't-care", "DESIGN.md §4 C06"),
+ "C07": ("exploration", "status table oracle over exit-status sweep (library + scheduler) and CLI target sequences observed at the process boundary",
+         "exit statuses at every command position produced four ways, with/without allow_failure, as direct runs and pipeline stages; CLI sequences of up to 3 targets in three invocation forms; process exit status and trace tokens compared with the statement.",
+         "numeric value of a non-zero process status and Task fields after a failing before-hook are don't-cares", "DESIGN.md §4 C07"),
 }
 PENDING = {}
 
